@@ -28,6 +28,50 @@ def klass_of_adt(adt):
     return None
 
 
+_STATIC = {}
+
+
+def static_classes(b):
+    """what a local holds, where a single definition says so whatever the path: the compressed / the raw chunk object ('Cobj' /
+    'Robj'), its bytes ('Cdata' / 'Rdata' - also as a plain slice handed to a helper), the length of either"""
+    if b.id in _STATIC:
+        return _STATIC[b.id]
+    cls = {}
+    for l in range(len(b.locals)):
+        k = klass_of_adt(pointee_adt(b, l))
+        if k:
+            cls[l] = k + 'obj'
+    changed = True
+    rounds = 0
+    while changed and rounds < 12:
+        changed = False
+        rounds += 1
+        for l, ds in b.defs().items():
+            if l in cls or len(ds) != 1:
+                continue
+            d = ds[0]
+            got = None
+            if d[0] == 'assign' and not d[1]['pl']['p']:
+                rv = d[1]['rv']
+                if rv['k'] in ('use', 'cast') and rv['op']['k'] in ('copy', 'move') and not rv['op']['pl']['p']:
+                    got = cls.get(rv['op']['pl']['l'])
+                elif rv['k'] == 'ref' and not any(p['k'] == 'field' for p in rv['pl']['p']):
+                    got = cls.get(rv['pl']['l'])
+            elif d[0] == 'call' and 'q' in d[1]['callee'] and d[1]['args'] and d[1]['args'][0]['k'] in ('copy', 'move') and not d[1]['args'][0]['pl']['p']:
+                q = callee_q(d[1])
+                k = cls.get(d[1]['args'][0]['pl']['l'])
+                if k and k[0] in 'CR' and not k.startswith('len('):
+                    if q.endswith(('::data', '::deref', '::as_slice')):
+                        got = k[0] + 'data'
+                    elif q.endswith(('::chunk', '::as_ref', '::into_inner', '::borrow')):
+                        got = k
+            if got:
+                cls[l] = got
+                changed = True
+    _STATIC[b.id] = cls
+    return cls
+
+
 def len_class(b, l, depth=0):
     ds = b.defs().get(l, [])
     if len(ds) != 1 or depth > 6:
@@ -36,7 +80,11 @@ def len_class(b, l, depth=0):
     if d[0] == 'call' and 'q' in d[1]['callee'] and callee_q(d[1]).endswith('::len') and d[1]['args']:
         a = d[1]['args'][0]
         if a['k'] in ('copy', 'move'):
-            return klass_of_adt(pointee_adt(b, a['pl']['l']))
+            k = klass_of_adt(pointee_adt(b, a['pl']['l']))
+            if k is None and not a['pl']['p']:
+                sc = static_classes(b).get(a['pl']['l'])
+                k = sc[0] if sc and sc[0] in 'CR' and not sc.startswith('len(') else None
+            return k
     if d[0] == 'assign':
         rv = d[1]['rv']
         if rv['k'] in ('use', 'cast') and rv['op']['k'] in ('copy', 'move') and not rv['op']['pl']['p']:
@@ -60,7 +108,8 @@ def walk_writer(b, bi, si, cmplocal, val):
         if key in seen or len(seen) > 30000:
             continue
         seen.add(key)
-        B, C = dict(benv), dict(cenv)
+        B, C = dict(benv), dict(static_classes(b))
+        C.update(dict(cenv))
         blk = b.blocks[bi]
         got_desc = False
         for st in blk['stmts'][si:]:
